@@ -154,3 +154,58 @@ def path_formulas_ops(k, aps=('p', 'q'), quant=False):
                 out += [(op, f, g) for f in by_ops[a] for g in by_ops[b]]
         by_ops[n] = out
     return [f for n in range(k + 1) for f in by_ops[n]]
+
+
+# ---------- exotic atom names: the faithful (printed-form) models of coq/Model/Memo.v ----------
+def run_print_stream(R, pid, logic, nform, kf_id='KF-print-a'):
+    """formulas whose ATOM NAMES collide with printed subformulas / reserved words (known finding
+    KF-print-a).  Three observers: implementation, FAITHFUL model (memo dict / set membership keyed by
+    printed form, proved equal to the exact model on identifier atoms: MemoP.v), EXACT model.
+      impl == exact                      fine
+      impl == faithful != exact          the known finding (counted, never an alarm)
+      impl != faithful and != exact      VIOLATION (a new way of being wrong)
+      impl == exact != faithful          no alarm; recorded as known_finding_no_longer_reproduces"""
+    import memo_probe
+    rng = random.Random(R.seed + 77)
+    faithful_cmd = {'CTL': 'ctlmemo', 'LTL': 'ltlprint'}[logic]
+    clean_cmd = {'CTL': 'ctl', 'LTL': 'ltl'}[logic]
+    cases = [(kd, f) for kd, f, _ in memo_probe.HAND[logic]]
+    seen = set()
+    while len(seen) < nform:
+        f = memo_probe.gen_formula(rng, logic)
+        if f in seen:
+            continue
+        seen.add(f)
+        for kd in memo_probe.structures(rng, f, 2, False):
+            cases.append((kd, f))
+    cmds, impls = [], []
+    for kd, f in cases:
+        K = kd_py(kd)
+        impls.append(tuple(memo_probe.impl(logic, K, f)))
+        ks = kripke_sx(K)
+        cmds.append([faithful_cmd, ks, fsx(f)])
+        cmds.append([clean_cmd, ks, fsx(f)])
+    outs = model_batch_parallel(cmds)
+    kf = stale = 0
+    example = None
+    for i, (kd, f) in enumerate(cases):
+        R.evaluations += 1
+        r, fa, cl = impls[i], memo_probe.obs(outs[2 * i]), memo_probe.obs(outs[2 * i + 1])
+        if r == cl:
+            R.count('exotic_atoms_agree_with_exact_model')
+            continue
+        if r == fa:
+            kf += 1
+            if example is None:
+                example = (kd, f, r, cl)
+            continue
+        if r != fa and r != cl:
+            R.violation('%s.modelcheck on exotic atom names differs from the faithful (printed-form) model and from the exact model' % logic,
+                        {'logic': logic, 'kripke': kd_json(kd), 'formula': f, 'formula_str': fstr(f), 'impl': r,
+                         'faithful_model': fa, 'exact_model': cl, 'stream': 'exotic atom names'})
+    if kf:
+        R.known_hits[kf_id] = R.known_hits.get(kf_id, 0) + kf
+        kd, f, r, cl = example
+        known_finding_line(pid, kf_id, '%s: formulas compared by printed form - %d explored inputs with atoms named like printed subformulas are answered as the '
+                           'faithful model predicts, not exactly (e.g. %s on %s: got %s, exact %s)' % (logic, kf, fstr(f), json.dumps(kd_json(kd)), r, cl))
+    R.cov['exotic_atom_stream'] = {'cases': len(cases), 'known_finding_cases': kf}
